@@ -89,16 +89,16 @@ def gen_tasks(rng, tier):
         for dt in DTS[1:]:
             tasks.append({"fn": fn, "group": "operator", "operands": [T(dt, [3])], "track": True, "spell": "op", "seed": len(tasks)})
     # ---- sequential functions
-    AXES = {1: [None, 0, -1, []], 2: [None, 0, 1, -1, [0, 1], [1], []], 3: [None, 1, [0, 2], -2]}
+    AXES = {0: [None, 0, -1, []], 1: [None, 0, -1, []], 2: [None, 0, 1, -1, [0, 1], [1], []], 3: [None, 1, [0, 2], -2]}      # (NumPy accepts axis=0 / -1 for a 0-d operand)
     for fn in ("sum", "mean", "prod", "max", "min", "amax", "amin", "var", "std", "cumsum", "cumprod"):
         for dt in ["float32", "float64", "int8", "int64", "float16", "bool"]:
-            for shape in ([3], [2, 3], [2, 1, 3]):
+            for shape in ([], [3], [2, 3], [2, 1, 3]):
                 for axis in AXES[len(shape)]:
                     if fn in ("cumsum", "cumprod") and (axis is None or isinstance(axis, list)):
                         if axis is not None:
                             continue
                     for kd in ((False, True) if fn not in ("cumsum", "cumprod") else (None,)):
-                        if not full and rng.random() < 0.5:
+                        if not full and shape and rng.random() < 0.5:
                             continue
                         opts = {"axis": axis}
                         if kd is not None:
@@ -138,6 +138,11 @@ def gen_tasks(rng, tier):
                 tasks.append({"fn": "norm", "group": "norm", "operands": [T(dt, [2, 3])], "opts": {"ord": o, "axis": axis} if axis is not None else {"ord": o}, "track": True,
                               "spell": "np" if rng.random() < 0.5 else "mg_norm", "seed": len(tasks), "domain": "pos"})
         tasks.append({"fn": "where", "group": "where", "operands": [{"kind": "array", "dtype": "float64", "shape": [3]}, T(dt, [3]), T("float64", [3])], "track": True, "spell": rng.choice(["mg", "np"]), "seed": len(tasks)})
+        # the condition handed over as it is (boolean / integer / float mask), one branch a bare Python scalar: the result dtype is NumPy's
+        for cdt, sc, order in itertools.product(["bool", "int64", "uint8", "float64"], [{"kind": "pyfloat", "val": 0.5}, {"kind": "pyint", "val": 0}], (0, 1)):
+            branches = [T(dt, [3]), sc] if order == 0 else [sc, T(dt, [3])]
+            tasks.append({"fn": "where", "group": "where_raw", "raw_condition": True, "operands": [{"kind": "array", "dtype": cdt, "shape": [3]}] + branches, "track": rng.random() < 0.7,
+                          "spell": rng.choice(["mg", "np"]), "seed": len(tasks)})
         tasks.append({"fn": "T", "group": "shape", "operands": [T(dt, [2, 3])], "track": True, "spell": "method", "seed": len(tasks)})
     return tasks
 
